@@ -213,6 +213,17 @@ def minimise(scn: Scenario, case: dict, cls: str, max_execs: int = 3000, max_sec
     def test(c: dict) -> bool:
         return cls in violation_classes(scn, c)[:1]
 
+    # a sweep case names the failing schedule: continue with that explicit schedule
+    first = run_case(scn, case)
+    hint = first.extra.get("narrow")
+    if hint is not None:
+        try:
+            narrowed = scn.narrow(case, hint)
+            if test(narrowed):
+                case = narrowed
+        except Exception:  # noqa: BLE001
+            pass
+
     sh = Shrinker(test, max_execs=max_execs, max_seconds=max_seconds)
     small = sh.shrink(case)
     return small, sh.execs
